@@ -5,9 +5,11 @@ package processor
 // success and after a full queue) through the REAL vaaGossipConsumer.Push with real secp256k1 keys, a real
 // GuardianSets instance, the real deduplicator and a bounded queue.  Injected via -overlay; not part of /repo.
 //
-// Logged: Init, ChainGrow, PushCall{p, v:{id,setIdx,sigs:[{idx,signer}]}}, PushRet{p,out} with
-// s = {cur, n, idxs, nkeys (via lookups are not possible from this package: list state is observed through
-// GetGuardianSet results only), queue:[ids], marked:[ids]}, LookupCall/LookupRet, Drain{id}.
+// Logged: Init, ChainGrow, PushCall{p, v:{id,setIdx,sigs:[{idx,signer}]}}, PushRet{p,out} with out = queued | dup |
+// error | panic (derived from the returned error and the queue length, not from error texts), LookupCall/LookupRet
+// (GetGuardianSet from this package), Drain{id}.  Ret lines carry s = {queue:[ids], marked:[ids], curIdx, curKeys}:
+// the queue's contents, which message ids the deduplicator's cache holds, index and size of the current set.  (The list itself is unexported state of another
+// package here; it is observed through GetGuardianSet results, and directly in the guardiansets harness.)
 
 import (
 	"context"
@@ -83,7 +85,14 @@ func (r *phxRun) state() map[string]interface{} {
 			marked = append(marked, id)
 		}
 	}
-	return map[string]interface{}{"queue": q, "marked": marked}
+	st := map[string]interface{}{"queue": q, "marked": marked}
+	func() {
+		defer func() { recover() }()
+		cur := r.gs.GetCurrentGuardianSet() // exported, no side effects; nothing runs concurrently here
+		st["curIdx"] = cur.Index
+		st["curKeys"] = len(cur.Keys)
+	}()
+	return st
 }
 
 func (r *phxRun) lookupRes(i int) (res map[string]interface{}) {
@@ -102,7 +111,7 @@ func (r *phxRun) lookupRes(i int) (res map[string]interface{}) {
 }
 
 func (r *phxRun) push(v map[string]interface{}) {
-	b, w := r.build(v)
+	b, _ := r.build(v)
 	id := vhStr(v, "id")
 	pv, perr := vaa.Unmarshal(b)
 	if perr != nil {
@@ -113,7 +122,6 @@ func (r *phxRun) push(v map[string]interface{}) {
 		r.keyOf[id] = pv.MessageID()
 		r.seen = append(r.seen, id)
 	}
-	_ = w
 	r.trace.Emit(r.sc, "PushCall", map[string]interface{}{"p": "m", "v": v}, nil)
 	before := len(r.queue)
 	var err error
